@@ -26,10 +26,10 @@ POSKEYS_ABS = ['pl', 'stm', 'cr', 'ep', 'half', 'full']
 PROPS = {
     'C01': dict(groups=['legal'], ops={'legal': ['moves', 'castle']}),
     'C02': dict(groups=['moves'], ops={'mv': ['r'] + POSKEYS_ABS + ['same']}, only_if={'mv': ('r', 'ok')}),
-    'C03': dict(groups=['univ', 'moves', 'legal'], ops={'univ': ['acc', 'appdiff', 'panics', 'n'], 'mv': ['r', 'same'], 'legal': ['c03']}),
+    'C03': dict(groups=['univ', 'moves', 'legal'], ops={'univ': ['acc', 'appdiff', 'panics', 'n'], 'mv': ['r', 'same', 'sc03'], 'legal': ['c03']}),
     'C04': dict(groups=['legal', 'moves'], ops={'status': ['status', 'term'], 'mv': ['term']}),
     'C05': dict(groups=['legal', 'moves'], ops={'masks': ['chk', 'pin'], 'mv': ['chk', 'pin']}),
-    'C06': dict(groups=['moves'], ops={'q': ['pl', 'tl', 'cl', 'em', 'kw', 'kb', 'inv'], 'mv': ['pm', 'cm', 'comb']}),
+    'C06': dict(groups=['moves', 'legal'], ops={'q': ['pl', 'tl', 'cl', 'em', 'kw', 'kb', 'inv'], 'mv': ['pm', 'cm', 'comb']}),
     'C07': dict(groups=['zobrist'], ops={'zob': ['keys'], 'mv': ['hash']}),
     'C08': dict(groups=['fen'], ops={'fen': ['fen', 'rt', 'setup'], 'pfen': ['b']}),
     'C09': dict(groups=['fen'], ops={'pfen': ['c'] + POSKEYS_ABS + ['pm', 'cm', 'comb', 'pin', 'chk', 'term', 'hash', 'g']}),
@@ -40,7 +40,7 @@ PROPS = {
     'C12': dict(groups=['game'], ops={'g.new': ['status', 'tag', 'hlen'], 'g.act': ['r', 'status', 'tag', 'hlen', 'fen', 'hash', 'cnts']}),
     'C13': dict(groups=['game'], ops={'g.hist': ['text', 'lookup', 'flags', 'chain'], 'g.act': ['hlen']}),
     'C14': dict(groups=['san'], ops={'sanall': ['sans', 'dup', 'illegal']}),
-    'C15': dict(groups=['pgn'], ops={'g.pgn': ['tags', 'words', 'rt']}),
+    'C15': dict(groups=['pgn'], ops={'g.pgn': ['tags', 'words', 'rt'], 'rx': ['sec', 'nsec', 'moves', 'n', 'res', 'rx']}),
     'C16': dict(groups=['parse'], ops={'pmove': ['r', 'rr']}, only_if={'pmove': ('r', 'ok')}),
     'C17': dict(groups=['tables'], ops={'tbl': ['v'], 'prim': ['v']}),
     'C18': dict(groups=['prims'], ops={'prim': ['v'], 'bb': ['list', 'cnt', 'lo', 'hi']}),
